@@ -662,20 +662,21 @@ namespace Pistache::Http::Experimental
             }
             if (parser.parse() == Private::State::Done)
             {
-                if (requestEntry)
+                auto entry = takeRequestEntry();
+                if (entry)
                 {
-                    if (requestEntry->timer)
+                    if (entry->timer)
                     {
-                        requestEntry->timer->disarm();
-                        timerPool_.releaseTimer(requestEntry->timer);
+                        entry->timer->disarm();
+                        timerPool_.releaseTimer(entry->timer);
                     }
 
-                    requestEntry->resolve(std::move(parser.response));
+                    entry->resolve(std::move(parser.response));
                     parser.reset();
 
-                    auto onDone = requestEntry->onDone;
+                    auto onDone = entry->onDone;
 
-                    requestEntry.reset(nullptr);
+                    entry.reset(nullptr);
 
                     if (onDone)
                         onDone();
@@ -694,19 +695,20 @@ namespace Pistache::Http::Experimental
         // the beginning of the next response on this connection
         parser.reset();
 
-        if (requestEntry)
+        auto entry = takeRequestEntry();
+        if (entry)
         {
-            if (requestEntry->timer)
+            if (entry->timer)
             {
-                requestEntry->timer->disarm();
-                timerPool_.releaseTimer(requestEntry->timer);
+                entry->timer->disarm();
+                timerPool_.releaseTimer(entry->timer);
             }
 
-            auto onDone = requestEntry->onDone;
+            auto onDone = entry->onDone;
 
-            requestEntry->reject(Error(error));
+            entry->reject(Error(error));
 
-            requestEntry.reset(nullptr);
+            entry.reset(nullptr);
 
             if (onDone)
                 onDone();
@@ -715,21 +717,28 @@ namespace Pistache::Http::Experimental
 
     void Connection::handleTimeout()
     {
-        if (requestEntry)
+        auto entry = takeRequestEntry();
+        if (entry)
         {
-            requestEntry->timer->disarm();
-            timerPool_.releaseTimer(requestEntry->timer);
+            entry->timer->disarm();
+            timerPool_.releaseTimer(entry->timer);
 
-            auto onDone = requestEntry->onDone;
+            auto onDone = entry->onDone;
 
             /* @API: create a TimeoutException */
-            requestEntry->reject(std::runtime_error("Timeout"));
+            entry->reject(std::runtime_error("Timeout"));
 
-            requestEntry.reset(nullptr);
+            entry.reset(nullptr);
 
             if (onDone)
                 onDone();
         }
+    }
+
+    std::unique_ptr<Connection::RequestEntry> Connection::takeRequestEntry()
+    {
+        std::lock_guard<std::mutex> guard(requestEntryLock);
+        return std::move(requestEntry);
     }
 
     Async::Promise<Response> Connection::perform(const Http::Request& request,
@@ -771,8 +780,11 @@ namespace Pistache::Http::Experimental
             timer->arm(timeout);
         }
 
-        requestEntry = std::make_unique<RequestEntry>(std::move(resolve), std::move(reject),
-                                                      timer, std::move(onDone));
+        {
+            std::lock_guard<std::mutex> guard(requestEntryLock);
+            requestEntry = std::make_unique<RequestEntry>(std::move(resolve), std::move(reject),
+                                                          timer, std::move(onDone));
+        }
         transport_->asyncSendRequest(shared_from_this(), timer, std::move(buffer));
     }
 
